@@ -35,6 +35,9 @@ def stalled_inproc_cases(rng):
         for sty, rty in (("PUSH", "PULL"), ("DEALER", "ROUTER")):
             out.append(["linger tr=inproc,how=close,stall=1,side=bind type=%s,linger=%d,sndhwm=1000 type=%s %d 1000"
                         % (sty, linger, rty, rng.choice([1, 50, 500]))])
+            # a backlog beyond both high-water marks: part of it is still in the sender's own pipe when it closes
+            out.append(["linger tr=inproc,how=%s,stall=1,side=bind type=%s,linger=%d,sndhwm=5 type=%s,rcvhwm=5 50 1000"
+                        % (rng.choice(["close", "term"]), sty, linger, rty)])
     return out
 
 
